@@ -1,2 +1,175 @@
-(* C18 — stub: no theorems yet *)
+(* C18 -- the slog handler reproduces slog's attribute and group semantics.
+   Only statements closed by [exact]; the proofs are in C18/Proofs.v.
+   Model: C18/Model.v ([run_fixed] = exp/zapslog/handler.go after the two fix: commits;
+   [run_orig] = the code before them, kept for the _refuted lemmas). *)
+From Coq Require Import List ZArith Bool.
+From Coq.Strings Require Import Byte.
+Import ListNotations.
 From Zap Require Import Base.Wire C18.Model C18.Proofs.
+Local Open Scope Z_scope.
+
+(* one attribute, any tree of typed values / named groups / inline groups / empty groups /
+   empty attrs / LogValuers, in front of anything ([tail]): the field built by
+   convertAttrToField contributes exactly what the contract says, and it is zap.Skip()
+   exactly when the contract says the attribute shows nothing *)
+Theorem C18_attr : forall k v tail,
+  denote_f (convert k v) tail = attr_sem (k, v) ++ tail /\
+  is_skip (convert k v) = is_nil (attr_sem (k, v)).
+Proof. exact (fun k v tail => conj (convert_denote k v tail) (convert_skip k v)). Qed.
+Print Assumptions C18_attr.
+
+(* the model converts a LogValuer layer by layer; the code calls Value.Resolve() (all layers
+   at once) and converts the result: the same function *)
+Theorem C18_logvaluer_resolved : forall k v, convert k (VLogValuer v) = convert k (resolve v).
+Proof. exact convert_resolve. Qed.
+Print Assumptions C18_logvaluer_resolved.
+
+(* for every derivation sequence (WithGroup/WithAttrs in any order, any length), every core
+   enabler, every slog level, message and record: Enabled and the emitted entry (mapped
+   level, message, logger name, attribute tree) are what the contract specifies *)
+Theorem C18_semantics : forall en name ops l m rec,
+  map observe (run_fixed en name (chain ops l m rec)) = [spec_out en name ops l m rec].
+Proof. exact semantics_thm. Qed.
+Print Assumptions C18_semantics.
+
+(* the same on the field list itself: what Handle hands to an enabled core denotes the
+   contract's tree *)
+Theorem C18_semantics_fields : forall name ops l m rec,
+  exists e, run_fixed (fun _ => true) name (chain ops l m rec) = [(true, Some e)] /\
+            denote (e_fields e) = spec_sem ops rec /\
+            e_level e = spec_level l /\ e_msg e = m /\ e_name e = name.
+Proof. exact semantics_fields. Qed.
+Print Assumptions C18_semantics_fields.
+
+(* for every program (any derivation tree, branching, Handle calls anywhere, any
+   interleaving): every Handle shows what the contract specifies for the derivation
+   sequence of its own handler *)
+Theorem C18_programs : forall en name p,
+  map observe (run_fixed en name p) = spec_run en name [[]] p.
+Proof. exact program_thm. Qed.
+Print Assumptions C18_programs.
+
+(* deriving never affects parents or siblings: in any program every Handle gives what the
+   same handler gives when derived alone from a fresh root (groups slice in an explicit heap) *)
+Theorem C18_isolated : forall en name p,
+  map observe (run_fixed en name p) =
+  flat_map (fun x => match x with (ops, l, m, rec) => map observe (run_fixed en name (chain ops l m rec)) end)
+           (handled_paths [[]] p).
+Proof. exact isolated_thm. Qed.
+Print Assumptions C18_isolated.
+
+(* the same on the raw entries (the very field lists handed to the core, not only their
+   denotation), by abstraction of the heap: a handler is a pure value determined by its own
+   derivation.  It does not depend on the conversion function: it holds before the fix too. *)
+Theorem C18_isolated_entries : forall en name p,
+  run_fixed en name p =
+  flat_map (fun x => match x with (ops, l, m, rec) => run_fixed en name (chain ops l m rec) end)
+           (handled_paths [[]] p).
+Proof. exact isolated_raw_fixed. Qed.
+Print Assumptions C18_isolated_entries.
+
+Theorem C18_isolated_entries_orig : forall en name p,
+  run_orig en name p =
+  flat_map (fun x => match x with (ops, l, m, rec) => run_orig en name (chain ops l m rec) end)
+           (handled_paths [[]] p).
+Proof. exact isolated_raw_orig. Qed.
+Print Assumptions C18_isolated_entries_orig.
+
+Theorem C18_level_monotone : forall l1 l2, l1 <= l2 -> convert_slog_level l1 <= convert_slog_level l2.
+Proof. exact level_monotone. Qed.
+Print Assumptions C18_level_monotone.
+
+(* Error(2) from slog 8, Warn(1) on [4,8), Info(0) on [0,4), Debug(-1) below 0 *)
+Theorem C18_level_thresholds : forall l,
+  (convert_slog_level l = 2 <-> 8 <= l) /\
+  (convert_slog_level l = 1 <-> 4 <= l < 8) /\
+  (convert_slog_level l = 0 <-> 0 <= l < 4) /\
+  (convert_slog_level l = -1 <-> l < 0).
+Proof. exact level_thresholds. Qed.
+Print Assumptions C18_level_thresholds.
+
+(* a record is handled iff the core enables the mapped level, Enabled says the same, and the
+   entry carries the mapped level -- for any handler state, hence after any derivation *)
+Theorem C18_enabled_iff : forall cv en hp h l m rec,
+  enabled en l = en (convert_slog_level l) /\
+  (handle cv en hp h l m rec <> None <-> en (convert_slog_level l) = true) /\
+  (forall e, handle cv en hp h l m rec = Some e ->
+             e_level e = convert_slog_level l /\ e_msg e = m /\ e_name e = h_name h).
+Proof. exact enabled_thm. Qed.
+Print Assumptions C18_enabled_iff.
+
+Theorem C18_enabled_programs : forall cv wg en name p hp st,
+  Forall (fun o : out => fst o = match snd o with Some _ => true | None => false end)
+         (run cv wg en name hp st p).
+Proof. exact run_enabled. Qed.
+Print Assumptions C18_enabled_programs.
+
+(* ---- the code before the fix (documentation of the defects) ---- *)
+(* WithGroup(""): {"":{"x":1}} instead of {"x":1} *)
+Theorem C18_withgroup_empty_refuted :
+  map observe (run_orig all_on [] (chain [OGroup []] 0 [] [(kx, one)])) =
+    [(true, Some (0, [], [], [([], Node [(kx, Leaf [x31])])]))] /\
+  spec_out all_on [] [OGroup []] 0 [] [(kx, one)] = (true, Some (0, [], [], [(kx, Leaf [x31])])).
+Proof. exact withgroup_empty_refuted. Qed.
+Print Assumptions C18_withgroup_empty_refuted.
+
+(* WithAttrs(g = group without attrs): {"g":{}} instead of {} *)
+Theorem C18_empty_group_refuted :
+  map observe (run_orig all_on [] (chain [OAttrs [(kg, VGroup [])]] 0 [] [])) =
+    [(true, Some (0, [], [], [(kg, Node [])]))] /\
+  spec_out all_on [] [OAttrs [(kg, VGroup [])]] 0 [] [] = (true, Some (0, [], [], [])).
+Proof. exact empty_group_refuted. Qed.
+Print Assumptions C18_empty_group_refuted.
+
+(* a LogValuer resolving to an empty group, inside a group of the record: {"x":{"g":{}}} *)
+Theorem C18_empty_group_logvaluer_refuted :
+  map observe (run_orig all_on [] (chain [] 0 [] [(kx, VGroup [(kg, VLogValuer (VGroup []))])])) =
+    [(true, Some (0, [], [], [(kx, Node [(kg, Node [])])]))] /\
+  spec_out all_on [] [] 0 [] [(kx, VGroup [(kg, VLogValuer (VGroup []))])] = (true, Some (0, [], [], [])).
+Proof. exact empty_group_logvaluer_refuted. Qed.
+Print Assumptions C18_empty_group_logvaluer_refuted.
+
+(* WithGroup("g") then an inline group holding only an empty Attr: {"g":{}} instead of {} *)
+Theorem C18_inline_empties_refuted :
+  map observe (run_orig all_on [] (chain [OGroup kg] 0 [] [([], VGroup [([], vnull)])])) =
+    [(true, Some (0, [], [], [(kg, Node [])]))] /\
+  spec_out all_on [] [OGroup kg] 0 [] [([], VGroup [([], vnull)])] = (true, Some (0, [], [], [])).
+Proof. exact inline_empties_refuted. Qed.
+Print Assumptions C18_inline_empties_refuted.
+
+Theorem C18_semantics_orig_refuted : ~ semantics_orig.
+Proof. exact semantics_orig_refuted. Qed.
+Print Assumptions C18_semantics_orig_refuted.
+
+(* isolation is not a triviality of the model: with append instead of make+copy it fails *)
+Theorem C18_isolated_append_refuted : ~ isolated_append.
+Proof. exact isolated_append_refuted. Qed.
+Print Assumptions C18_isolated_append_refuted.
+
+(* wire: the oracle the driver runs accepts what the model observes, on every case *)
+Theorem C18_wire : forall i, spec i (model i) = true.
+Proof. exact spec_model. Qed.
+Print Assumptions C18_wire.
+
+(* ---- non-vacuity ---- *)
+(* WithGroup("a").WithAttrs(<empty>).WithGroup("").WithGroup("b").WithAttrs(x=1, g={}) ;
+   Handle(""={y=<LogValuer 1>, ""=<nil>}) at slog level 5
+   -> warn, {"a":{"b":{"x":1,"y":1}}} *)
+Example C18_example :
+  map observe (run_fixed all_on kg
+    (chain [OGroup ka; OAttrs [([], vnull)]; OGroup []; OGroup kb; OAttrs [(kx, one); (kg, VGroup [])]]
+           5 ka [([], VGroup [(ky, VLogValuer one); ([], vnull)])])) =
+  [(true, Some (1, ka, kg,
+     [(ka, Node [(kb, Node [(kx, Leaf [x31]); (ky, Leaf [x31])])])]))].
+Proof. vm_compute. reflexivity. Qed.
+
+(* branching: the make+copy code keeps siblings apart (cf. isolated_append_refuted) *)
+Example C18_example_siblings :
+  map observe (run_fixed all_on [] alias_prog) =
+  [(true, Some (0, [], [], [(ka, Node [(kb, Node [(kc, Node [(kx, Node [(kx, Leaf [x31])])])])])]))].
+Proof. exact alias_prog_fixed. Qed.
+
+(* a disabled level is not handled *)
+Example C18_example_disabled :
+  map observe (run_fixed (en_of_mask 12) [] (chain [] 3 [] [(kx, one)])) = [(false, None)].
+Proof. vm_compute. reflexivity. Qed.
